@@ -128,6 +128,7 @@ func hC15History() {
 		verifObsBytes("used-backend-body", got.body)
 		verifObsBytes("used-client-body", got.out)
 		verifReach("probe-after-history")
+		verifAssert(bytesEq(want.body, got.body) && bytesEq(want.out, got.out), "C01: a well-formed RPC served after earlier (failed) traffic delivers the same message bytes in both directions")
 		verifAssert(want.calls == got.calls, "C15: dispatch independent of earlier traffic")
 		verifAssert(bytesEq(want.body, got.body) && want.readErr == got.readErr, "C15: request delivered to the backend independent of earlier traffic")
 		verifAssert(want.status == got.status && bytesEq(want.out, got.out), "C15: response independent of earlier traffic")
